@@ -34,6 +34,34 @@ CHECKS = {
         note="Trusted: TLC, the driver that builds AlignmentResultRow objects from label pairs. End-to-end records "
              "are additionally judged by the pipeline checks (C01/C02) with the same Trace_Row clauses.",
     ),
+    "C12": dict(
+        engine="tlc-pairing",
+        technique="TLC model checking of Pairing.tla (every small label geometry) + TLC batch trace validation of the "
+                  "real AlignerEngine.align on TLC-printed and random realistic geometries",
+        text="TLC exhausts the stage-by-stage model of AlignerEngine.align (window, candidates, two de-duplication "
+             "passes, unpaired, stable sort) on every geometry of <=3-4 reference labels (coincident allowed), <=3 "
+             "query labels, all seed offsets, maxD 0..2, both strands and fragment label offsets against the C12 "
+             "clauses; TLC prints the same inputs, the real engine aligns them (and thousands of random bp-scale "
+             "geometries incl. offsets exactly at +-maxD), and TLC evaluates the C12 clauses on every real result "
+             "and replays the stages for drift.",
+        design_ref="DESIGN.md section 4 (C12), section 10",
+        note="Trusted: TLC; the driver that builds OpticalMap objects and records positions; coordinates are "
+             "integers or halves so that Python float comparisons equal exact arithmetic.",
+    ),
+    "C14": dict(
+        engine="tlc-chainer",
+        technique="TLC model checking of Chainer.tla (DP + join score, exact rationals) + TLC batch trace validation "
+                  "of the real SegmentChainer against exhaustive subset enumeration with the observed join matrix",
+        text="TLC exhausts the chainer's dynamic programme on every set of <=3 lattice segments (both strands, both "
+             "join variants, multipliers 0,1/2,1,2) against the C14 clauses; the same sets and random sets of up to 8 "
+             "segments (shuffled, with empty segments) go through the real SegmentChainer, the join matrix is "
+             "observed from the real SequentialityScorer as exact multiples of 1/55440, and TLC checks subset, "
+             "order, finiteness, join<=0, contiguity=0, the half-overlap rule and optimality against every "
+             "key-ordered subset; Impl replay for drift.",
+        design_ref="DESIGN.md section 4 (C14), section 10",
+        note="Lattice-scale coordinates only (exact arithmetic in 32-bit TLC integers); optimality is relative to "
+             "the observed join scores; tie groups larger than 4 are not enumerated.",
+    ),
 }
 
 NOT_YET = "check not built yet in this round; planned per DESIGN.md section 4 (no technique switch)"
@@ -72,6 +100,10 @@ def main():
         "engines": [
             {"name": "tlc-segmenter", "path": "spec/Segmenter.tla", "serves_properties": ["C13"],
              "kind_free_text": "TLA+ spec (MC_/Export_/Trace_ configs) checked with TLC; harness/props/c13.py"},
+            {"name": "tlc-pairing", "path": "spec/Pairing.tla", "serves_properties": ["C12"],
+             "kind_free_text": "TLA+ spec (MC_/Export_/Trace_ configs) checked with TLC; harness/props/c12.py"},
+            {"name": "tlc-chainer", "path": "spec/Chainer.tla", "serves_properties": ["C14"],
+             "kind_free_text": "TLA+ spec (MC_/Export_/Trace_ configs) checked with TLC; harness/props/c14.py"},
             {"name": "tlc-row", "path": "spec/Row.tla", "serves_properties": ["C03"],
              "kind_free_text": "TLA+ spec (MC_/Export_/Trace_ configs) checked with TLC; harness/props/c03.py"},
         ],
